@@ -8,6 +8,7 @@ From Coq Require Import List ZArith NArith String Bool Permutation.
 From Qryn Require model.TqSql model.Traceql model.TraceqlPlan.
 From Qryn Require Import model.Sql model.SqlRender model.Logql model.LogqlPlan model.LogqlCases model.Replan proofs.ReplanProofs.
 From Qryn Require Import model.ProfSel model.ReplanLang proofs.ReplanLangProofs.
+From Qryn Require Import model.ReplanProf proofs.ReplanProfProofs.
 Import ListNotations.
 
 (* No Process method changes the plan object: whatever the planner tree, context and state, the
@@ -163,6 +164,24 @@ Theorem prof_reexecution_same_text :
 Proof. exact prof_run_is_fresh. Qed.
 Print Assumptions prof_reexecution_same_text.
 
+(* The other profile planners (model/ReplanProf.v: label names / values, merge traces, select series, merge profiles, series,
+   analyze -- one constructor per planner struct of reader/prof/transpiler, pprocess = their Process methods). No Process method
+   stores into a field (regenerated obligation: the only store of package prof/transpiler is populateTypeId's append to a copy at
+   plan time), so the model returns no planner: the statement of the k-th execution of ONE planner object is the statement of a
+   fresh object's first execution for that window, whatever windows were executed before and after. *)
+Theorem prof_planner_reexecution_same_text :
+  forall p c ws1 w ws2,
+    nth (List.length ws1) (prof_exec p c (ws1 ++ w :: ws2)) None = hd None (prof_exec p c [w]).
+Proof. exact prof_exec_nth. Qed.
+Print Assumptions prof_planner_reexecution_same_text.
+
+(* ... and every plan transpiler.go builds can be executed, for all selectors and contexts: the WITH `fp` that
+   SelectSeriesPlanner and ProfileSizePlanner look up in their sub-planner's select is always found (no nil *With reaches
+   NewWithRef), a UNION ALL always has a member. *)
+Theorem prof_plan_executes : forall m sels c, pprocess (plan_mode m sels) c <> None.
+Proof. exact plan_mode_executes. Qed.
+Print Assumptions prof_plan_executes.
+
 (* hypotheses are satisfiable: the witness query plans to a root *)
 Example witness_is_root : exists p, plan_log witness_sel true = Some p /\ is_root p = true.
 Proof. exact witness_plans. Qed.
@@ -173,3 +192,13 @@ Example noid_plan_meets_the_guard :
   | None => False
   end.
 Proof. exact noid_plan_meets_guard. Qed.
+(* a profile plan that renders: merge_traces of {a="b"} *)
+Example prof_plan_renders :
+  match pprocess (plan_mode PMMergeTraces [{| sl_name := "a"; sl_op := MEq; sl_val := "b" |}])
+                 {| pr_from_ns := 1700000000000000000; pr_to_ns := 1700000300000000000; pr_limit := 0; pt_series_gin := "profiles_series_gin";
+                    pt_series_gin_dist := "profiles_series_gin"; pt_series := "profiles_series"; pt_series_dist := "profiles_series";
+                    pt_profiles_dist := "profiles" |} with
+  | Some r => prender r <> None
+  | None => False
+  end.
+Proof. vm_compute. intro H. inversion H. Qed.
